@@ -1,17 +1,11 @@
-"""Per-property configuration of the check driver (check.py)."""
+"""Per-property configuration of the check driver (check.py): one JSON file per property in
+props.d/ (so that properties can be worked on independently)."""
+import json
+import os
 
-PROPS = {
-    "C13": {
-        "lean_modules": ["TeraModel.Props.C13"],
-        "lean_exes": ["drv_c13"],
-        "harness_bin": "c13",
-        "level": "proof",
-        "trusted": [
-            "modelled, not verified: Rust std i128 checked_* / div_euclid / rem_euclid / checked_pow (taken as exact-or-none), f64 hardware arithmetic and libm pow (executed natively on both sides), `as f64` rounding (model: round-to-nearest-even)",
-        ],
-        "assumptions": [
-            "default cargo features of tera (no fast_*, no preserve_order)",
-            "float arithmetic results are only required to be IEEE operations on the converted operands; powf is compared bit-for-bit but not specified",
-        ],
-    },
-}
+_D = os.path.join(os.path.dirname(os.path.abspath(__file__)), "props.d")
+PROPS = {}
+for _f in sorted(os.listdir(_D)):
+    if _f.endswith(".json"):
+        _c = json.load(open(os.path.join(_D, _f)))
+        PROPS[_f[:-5]] = _c
